@@ -20,10 +20,11 @@ import (
 )
 
 type fsOp struct {
-	kind byte // 'c' create/truncate, 'w' write byte, 'r' rename, 'd' delete
+	kind byte // 'c' create/truncate, 'w' append byte, 'o' overwrite byte at idx, 'r' rename, 'd' delete
 	path string
 	to   string
 	b    value
+	idx  int
 }
 
 type fsModel struct {
@@ -37,6 +38,7 @@ type fsModel struct {
 type fsHandle struct {
 	path   string
 	closed bool
+	off    int // file offset of the next write
 }
 
 type crashSignal struct{}
@@ -61,6 +63,10 @@ func applyOps(base map[string][]value, ops []fsOp) map[string][]value {
 			st[op.path] = []value{}
 		case 'w':
 			st[op.path] = append(st[op.path], op.b)
+		case 'o':
+			if f, ok := st[op.path]; ok && op.idx < len(f) {
+				f[op.idx] = op.b
+			}
 		case 'r':
 			if v, ok := st[op.path]; ok {
 				st[op.to] = v
@@ -93,15 +99,67 @@ func (i *interpreter) crashPoint() {
 	}
 }
 
+// crashState: the disk after a crash — durable state plus a prefix of the unsynced operations,
+// with unsynced file data lagging behind metadata (see the header).
+func crashState(i *interpreter, m *fsModel) map[string][]value {
+	k := 0
+	if len(m.log) > 0 {
+		k = i.freeChoice(len(m.log)+1, 'c')
+	}
+	// metadata operations (create, rename, remove) reach the disk in order, but the data
+	// of a file that was never synced may lag behind them (delayed allocation): of the
+	// unsynced bytes written to a file, only a prefix survives, independently per file
+	ops := append([]fsOp(nil), m.log[:k]...)
+	writes := map[string]int{}
+	var order []string
+	for _, op := range ops {
+		if op.kind == 'w' || op.kind == 'o' {
+			if writes[op.path] == 0 {
+				order = append(order, op.path)
+			}
+			writes[op.path]++
+		}
+	}
+	for _, path := range order {
+		keep := i.freeChoice(writes[path]+1, 'c')
+		seen := 0
+		var kept []fsOp
+		for _, op := range ops {
+			if (op.kind == 'w' || op.kind == 'o') && op.path == path {
+				seen++
+				if seen > keep {
+					continue
+				}
+			}
+			kept = append(kept, op)
+		}
+		ops = kept
+	}
+	return applyOps(m.durable, ops)
+}
+
 func (i *interpreter) fsError(text string) value { return i.stdErrorsNew(text) }
 
 func initFSModels() {
 	rt := func(n string) string { return rtPath + "." + n }
 	bytesArg := func(i *interpreter, v value) []value { return append([]value(nil), i.asSlice(v)...) }
-	write := func(i *interpreter, path string, data []value) {
+	// write at the handle's offset: bytes inside the current length overwrite in place, the rest
+	// extend the file (h == nil: the file was just truncated, plain append)
+	write := func(i *interpreter, h *fsHandle, path string, data []value) {
 		m := i.fs()
+		cur := -1
+		if h != nil {
+			cur = len(m.view()[path])
+		}
 		for _, b := range data {
-			m.log = append(m.log, fsOp{kind: 'w', path: path, b: b})
+			if h != nil && h.off < cur {
+				m.log = append(m.log, fsOp{kind: 'o', path: path, b: b, idx: h.off})
+			} else {
+				m.log = append(m.log, fsOp{kind: 'w', path: path, b: b})
+			}
+			if h != nil {
+				h.off++
+			}
 		}
 	}
 	externals[rt("FSInit")] = func(fr *frame, args []value) value {
@@ -138,40 +196,7 @@ func initFSModels() {
 		m := i.fs()
 		var st map[string][]value
 		if m.crashed {
-			k := 0
-			if len(m.log) > 0 {
-				k = i.freeChoice(len(m.log)+1, 'c')
-			}
-			// metadata operations (create, rename, remove) reach the disk in order, but the data
-			// of a file that was never synced may lag behind them (delayed allocation): of the
-			// unsynced bytes written to a file, only a prefix survives, independently per file
-			ops := append([]fsOp(nil), m.log[:k]...)
-			writes := map[string]int{}
-			var order []string
-			for _, op := range ops {
-				if op.kind == 'w' {
-					if writes[op.path] == 0 {
-						order = append(order, op.path)
-					}
-					writes[op.path]++
-				}
-			}
-			for _, path := range order {
-				keep := i.freeChoice(writes[path]+1, 'c')
-				seen := 0
-				var kept []fsOp
-				for _, op := range ops {
-					if op.kind == 'w' && op.path == path {
-						seen++
-						if seen > keep {
-							continue
-						}
-					}
-					kept = append(kept, op)
-				}
-				ops = kept
-			}
-			st = applyOps(m.durable, ops)
+			st = crashState(i, m)
 		} else {
 			st = m.view()
 		}
@@ -180,6 +205,19 @@ func initFSModels() {
 			return tuple{[]value(nil), false}
 		}
 		return tuple{append([]value{}, v...), true}
+	}
+	// FSRestart: the machine comes back after a crash: what survived becomes the durable state,
+	// the page cache is gone, and later saves can crash again.
+	externals[rt("FSRestart")] = func(fr *frame, args []value) value {
+		i := fr.i
+		m := i.fs()
+		if !m.crashed {
+			return nil
+		}
+		m.durable = crashState(i, m)
+		m.log = nil
+		m.crashed = false
+		return nil
 	}
 	externals[rt("FSList")] = func(fr *frame, args []value) value {
 		var names []string
@@ -200,7 +238,7 @@ func initFSModels() {
 		i.crashPoint()
 		m.log = append(m.log, fsOp{kind: 'c', path: path})
 		i.crashPoint()
-		write(i, path, bytesArg(i, args[1]))
+		write(i, nil, path, bytesArg(i, args[1]))
 		i.crashPoint()
 		return iface{}
 	}
@@ -282,7 +320,11 @@ func initFSModels() {
 		if !exists || flag&oTrunc != 0 {
 			m.log = append(m.log, fsOp{kind: 'c', path: path})
 		}
-		return tuple{newFile(i, path), iface{}}
+		f := newFile(i, path)
+		if flag&0x400 != 0 { // O_APPEND
+			handle(i, f).off = len(m.view()[path])
+		}
+		return tuple{f, iface{}}
 	}
 	externals["os.Create"] = func(fr *frame, args []value) value {
 		i := fr.i
@@ -297,7 +339,7 @@ func initFSModels() {
 		h := handle(i, args[0])
 		i.crashPoint()
 		data := bytesArg(i, args[1])
-		write(i, h.path, data)
+		write(i, h, h.path, data)
 		return tuple{len(data), iface{}}
 	}
 	externals["(*os.File).WriteString"] = func(fr *frame, args []value) value {
@@ -305,7 +347,7 @@ func initFSModels() {
 		h := handle(i, args[0])
 		i.crashPoint()
 		s, _ := asSstr(args[1])
-		write(i, h.path, []value(s))
+		write(i, h, h.path, []value(s))
 		return tuple{len(s), iface{}}
 	}
 	externals["(*os.File).Sync"] = func(fr *frame, args []value) value {
